@@ -14,6 +14,42 @@ use core::fmt;
 use core::ops::{Bound, RangeBounds};
 
 pub const CAP: usize = 4;
+/// longest string key (bytes) the model compares; longer keys are a reported bound violation
+pub const KEYLEN: usize = 4;
+
+/// Key comparison with concrete loop bounds (std's `str` comparison is a memcmp whose length CBMC
+/// does not fold: it unwinds to the bound on every lookup).
+pub trait VKey {
+    fn vcmp(&self, other: &Self) -> core::cmp::Ordering;
+}
+macro_rules! vkey_int {
+    ($($t:ty),*) => { $( impl VKey for $t { #[inline] fn vcmp(&self, o: &Self) -> core::cmp::Ordering { self.cmp(o) } } )* };
+}
+vkey_int!(usize, u64, u32, u16, u8, i64, ());
+impl VKey for str {
+    fn vcmp(&self, o: &str) -> core::cmp::Ordering {
+        let (a, b) = (self.as_bytes(), o.as_bytes());
+        assert!(a.len() <= KEYLEN && b.len() <= KEYLEN, "VERIF: bound exceeded: model map string key length");
+        let mut i = 0;
+        while i < KEYLEN {
+            if i < a.len() && i < b.len() {
+                if a[i] != b[i] {
+                    return a[i].cmp(&b[i]);
+                }
+            } else {
+                return a.len().cmp(&b.len());
+            }
+            i += 1;
+        }
+        a.len().cmp(&b.len())
+    }
+}
+impl VKey for String {
+    #[inline]
+    fn vcmp(&self, o: &String) -> core::cmp::Ordering {
+        self.as_str().vcmp(o.as_str())
+    }
+}
 
 /// Storage.  `scratch_*`: the entry most recently handed out by `get_mut`/`entry` is *moved* into
 /// the scratch slot (a concrete address) and moved back (`sync`) at the start of the next
@@ -50,9 +86,11 @@ impl<K: fmt::Debug, V: fmt::Debug> fmt::Debug for BTreeMap<K, V> {
 
 #[inline(always)]
 unsafe fn mv<T>(dst: &mut Option<T>, src: &mut Option<T>) {
-    // typed move without drop glue: dst is None by invariant
-    let x = core::mem::replace(src, None);
-    core::mem::forget(core::mem::replace(dst, x));
+    // move without drop glue: dst is None by invariant
+    unsafe {
+        core::ptr::write(dst, core::ptr::read(src));
+        core::ptr::write(src, None);
+    }
 }
 
 impl<K, V> BTreeMap<K, V> {
@@ -165,7 +203,7 @@ impl<K, V> BTreeMap<K, V> {
 
 impl<K, V> Inner<K, V> {
     /// sorted position of the first key >= k (in 0..=len), by concrete scan
-    fn lower_bound<Q: ?Sized + Ord>(&self, k: &Q) -> usize
+    fn lower_bound<Q: ?Sized + VKey>(&self, k: &Q) -> usize
     where
         K: Borrow<Q>,
     {
@@ -174,7 +212,7 @@ impl<K, V> Inner<K, V> {
         while j < CAP {
             if j < self.len {
                 if let Some(kj) = &self.keys[j] {
-                    if kj.borrow() < k {
+                    if kj.borrow().vcmp(k) == core::cmp::Ordering::Less {
                         pos = j + 1;
                     }
                 }
@@ -184,7 +222,7 @@ impl<K, V> Inner<K, V> {
         pos
     }
     /// sorted position of the first key > k
-    fn upper_bound<Q: ?Sized + Ord>(&self, k: &Q) -> usize
+    fn upper_bound<Q: ?Sized + VKey>(&self, k: &Q) -> usize
     where
         K: Borrow<Q>,
     {
@@ -193,7 +231,7 @@ impl<K, V> Inner<K, V> {
         while j < CAP {
             if j < self.len {
                 if let Some(kj) = &self.keys[j] {
-                    if kj.borrow() <= k {
+                    if kj.borrow().vcmp(k) != core::cmp::Ordering::Greater {
                         pos = j + 1;
                     }
                 }
@@ -203,7 +241,7 @@ impl<K, V> Inner<K, V> {
         pos
     }
     /// position of key k, or CAP
-    fn find<Q: ?Sized + Ord>(&self, k: &Q) -> usize
+    fn find<Q: ?Sized + VKey>(&self, k: &Q) -> usize
     where
         K: Borrow<Q>,
     {
@@ -212,7 +250,7 @@ impl<K, V> Inner<K, V> {
         while j < CAP {
             if j < self.len {
                 if let Some(kj) = &self.keys[j] {
-                    if kj.borrow() == k {
+                    if kj.borrow().vcmp(k) == core::cmp::Ordering::Equal {
                         pos = j;
                     }
                 }
@@ -257,14 +295,14 @@ impl<K, V> Inner<K, V> {
     }
 }
 
-impl<K: Ord, V> BTreeMap<K, V> {
-    pub fn contains_key<Q: ?Sized + Ord>(&self, k: &Q) -> bool
+impl<K: VKey, V> BTreeMap<K, V> {
+    pub fn contains_key<Q: ?Sized + VKey>(&self, k: &Q) -> bool
     where
         K: Borrow<Q>,
     {
         self.me().find(k) < CAP
     }
-    pub fn get<Q: ?Sized + Ord>(&self, k: &Q) -> Option<&V>
+    pub fn get<Q: ?Sized + VKey>(&self, k: &Q) -> Option<&V>
     where
         K: Borrow<Q>,
     {
@@ -273,7 +311,7 @@ impl<K: Ord, V> BTreeMap<K, V> {
         while j < CAP {
             if j < m.len {
                 if let Some(kj) = &m.keys[j] {
-                    if kj.borrow() == k {
+                    if kj.borrow().vcmp(k) == core::cmp::Ordering::Equal {
                         return m.vals[j].as_ref();
                     }
                 }
@@ -282,7 +320,7 @@ impl<K: Ord, V> BTreeMap<K, V> {
         }
         None
     }
-    pub fn get_mut<Q: ?Sized + Ord>(&mut self, k: &Q) -> Option<&mut V>
+    pub fn get_mut<Q: ?Sized + VKey>(&mut self, k: &Q) -> Option<&mut V>
     where
         K: Borrow<Q>,
     {
@@ -312,8 +350,10 @@ impl<K: Ord, V> BTreeMap<K, V> {
             let mut old = None;
             while i < CAP {
                 if i == j {
-                    core::mem::swap(&mut m.vals[i], &mut v);
-                    unsafe { mv(&mut old, &mut v) };
+                    unsafe {
+                        mv(&mut old, &mut m.vals[i]);
+                        mv(&mut m.vals[i], &mut v);
+                    }
                 }
                 i += 1;
             }
@@ -351,7 +391,7 @@ impl<K: Ord, V> BTreeMap<K, V> {
         None
     }
 
-    pub fn remove<Q: ?Sized + Ord>(&mut self, k: &Q) -> Option<V>
+    pub fn remove<Q: ?Sized + VKey>(&mut self, k: &Q) -> Option<V>
     where
         K: Borrow<Q>,
     {
@@ -375,7 +415,7 @@ impl<K: Ord, V> BTreeMap<K, V> {
         Entry { m: self, k }
     }
 
-    pub fn range<Q: ?Sized + Ord, R: RangeBounds<Q>>(&self, r: R) -> Iter<'_, K, V>
+    pub fn range<Q: ?Sized + VKey, R: RangeBounds<Q>>(&self, r: R) -> Iter<'_, K, V>
     where
         K: Borrow<Q>,
     {
@@ -453,7 +493,7 @@ pub struct Entry<'a, K, V> {
     m: &'a mut BTreeMap<K, V>,
     k: K,
 }
-impl<'a, K: Ord + Clone, V> Entry<'a, K, V> {
+impl<'a, K: VKey + Clone, V> Entry<'a, K, V> {
     pub fn or_insert_with<F: FnOnce() -> V>(self, f: F) -> &'a mut V {
         if !self.m.contains_key(&self.k) {
             self.m.insert(self.k.clone(), f());
@@ -599,7 +639,7 @@ impl<K, V> IntoIterator for BTreeMap<K, V> {
         IntoIter { m: self, lo: 0 }
     }
 }
-impl<K: Ord, V> FromIterator<(K, V)> for BTreeMap<K, V> {
+impl<K: VKey, V> FromIterator<(K, V)> for BTreeMap<K, V> {
     fn from_iter<I: IntoIterator<Item = (K, V)>>(it: I) -> Self {
         let mut m = Self::new();
         for (k, v) in it {
@@ -660,7 +700,7 @@ impl<K> BTreeSet<K> {
         self.m.verif_at(j).map(|(k, _)| k)
     }
 }
-impl<K: Ord> BTreeSet<K> {
+impl<K: VKey> BTreeSet<K> {
     pub fn insert(&mut self, k: K) -> bool {
         if self.m.contains_key(&k) {
             false
@@ -669,13 +709,13 @@ impl<K: Ord> BTreeSet<K> {
             true
         }
     }
-    pub fn remove<Q: ?Sized + Ord>(&mut self, k: &Q) -> bool
+    pub fn remove<Q: ?Sized + VKey>(&mut self, k: &Q) -> bool
     where
         K: Borrow<Q>,
     {
         self.m.remove(k).is_some()
     }
-    pub fn contains<Q: ?Sized + Ord>(&self, k: &Q) -> bool
+    pub fn contains<Q: ?Sized + VKey>(&self, k: &Q) -> bool
     where
         K: Borrow<Q>,
     {
@@ -687,7 +727,7 @@ impl<K: Ord> BTreeSet<K> {
     pub fn pop_last(&mut self) -> Option<K> {
         self.m.pop_last().map(|(k, _)| k)
     }
-    pub fn range<Q: ?Sized + Ord, R: RangeBounds<Q>>(&self, r: R) -> Keys<'_, K, ()>
+    pub fn range<Q: ?Sized + VKey, R: RangeBounds<Q>>(&self, r: R) -> Keys<'_, K, ()>
     where
         K: Borrow<Q>,
     {
@@ -723,7 +763,7 @@ impl<K> IntoIterator for BTreeSet<K> {
         SetIntoIter(self.m.into_iter())
     }
 }
-impl<K: Ord> FromIterator<K> for BTreeSet<K> {
+impl<K: VKey> FromIterator<K> for BTreeSet<K> {
     fn from_iter<I: IntoIterator<Item = K>>(it: I) -> Self {
         let mut s = Self::new();
         for k in it {
